@@ -468,10 +468,59 @@ class _KeysToItems(ast.NodeTransformer):
     visit_ListComp = visit_GeneratorExp = visit_SetComp = visit_DictComp = _comp
 
 
+class _RangeStep(ast.NodeTransformer):
+    """[E(x) for x in range(LO, LO + S*N, S)]   ->   [E(LO + S*i) for i in range(N)]       (S a positive integer constant)"""
+
+    def _comp(self, n):
+        self.generic_visit(n)
+        if len(n.generators) != 1:
+            return n
+        g = n.generators[0]
+        it = g.iter
+        if not (isinstance(g.target, ast.Name) and isinstance(it, ast.Call) and isinstance(it.func, ast.Name) and it.func.id == "range"
+                and len(it.args) == 3 and not it.keywords and isinstance(it.args[2], ast.Constant) and isinstance(it.args[2].value, int) and it.args[2].value > 1):
+            return n
+        from .linear import linform
+        lo, hi, step = it.args[0], it.args[1], it.args[2].value
+        d = linform(ast.BinOp(left=hi, op=ast.Sub(), right=lo))
+        if d is None or not d or any(c % step for c in d.values()) or "" in d and len(d) == 1 and d[""] <= 0:
+            return n
+        # N = (hi - lo) / step, rebuilt from the linear form
+        terms = []
+        for k, c in sorted(d.items()):
+            q = c // step
+            if k == "":
+                terms.append(ast.Constant(value=q))
+            else:
+                atom = ast.parse(k, mode="eval").body
+                terms.append(atom if q == 1 else ast.BinOp(left=ast.Constant(value=q), op=ast.Mult(), right=atom))
+        count: ast.AST = terms[0]
+        for t in terms[1:]:
+            count = ast.BinOp(left=count, op=ast.Add(), right=t)
+        x = g.target.id
+        val = ast.BinOp(left=copy.deepcopy(lo), op=ast.Add(), right=ast.BinOp(left=ast.Constant(value=step), op=ast.Mult(), right=ast.Name(id=x, ctx=ast.Load())))
+
+        class R(ast.NodeTransformer):
+            def visit_Name(self, m):
+                if m.id == x and isinstance(m.ctx, ast.Load):
+                    return copy.deepcopy(val)
+                return m
+        if hasattr(n, "elt"):
+            n.elt = R().visit(n.elt)
+        else:
+            n.key, n.value = R().visit(n.key), R().visit(n.value)
+        g.ifs = [R().visit(i) for i in g.ifs]
+        g.iter = ast.Call(func=ast.Name(id="range", ctx=ast.Load()), args=[count], keywords=[])
+        return n
+
+    visit_ListComp = visit_GeneratorExp = visit_SetComp = visit_DictComp = _comp
+
+
 def normalise_loops(fn: ast.FunctionDef) -> ast.FunctionDef:
     new = copy.copy(fn)
     new.body = _rewrite_block(list(fn.body))
     new = _Fuse().visit(copy.deepcopy(new))
     new = _KeysToItems().visit(new)
+    new = _RangeStep().visit(new)
     ast.fix_missing_locations(new)
     return new
